@@ -683,13 +683,13 @@ def check_c01f(prog, rep, R="C01.f"):
                     if nm == "truncate":
                         tt = slices.t_operand(b, c.args[1], 0, (), c.bb)
                         recv = slices.t_operand(b, c.args[0], 0, (), c.bb)
-                        good = tt[0] == "call" and tt[1] == "core::str::len" and tt[2][0][0] == "call" and tt[2][0][1] == "core::str::trim_ascii_end"
+                        inner = slices.blank_end_trim(prog, tt[2][0]) if tt[0] == "call" and tt[1] == "core::str::len" else None
+                        good = inner is not None
                         if good:
-                            inner = tt[2][0][2][0]
                             while inner[0] == "call" and inner[1].split("::")[-1] in ("deref", "as_str", "deref_mut"):
                                 inner = inner[2][0]
                             good = inner == recv
-                        rep.check(good, R, "truncate:" + short(name), "String::truncate in %s is not `s.truncate(s.trim_ascii_end().len())` (got %s)" % (short(name), slices.show(tt)), where=c.where(),
+                        rep.check(good, R, "truncate:" + short(name), "String::truncate in %s is not a truncation of the string to itself minus blank characters (<= U+0020, U+3000) at its end, e.g. `s.truncate(s.trim_ascii_end().len())` (got %s)" % (short(name), slices.show(tt)), where=c.where(),
                                   instance={"truncate": "to trim_ascii_end of the same string"})
                         continue
                     if nm == "get_or_insert_with":
@@ -721,6 +721,70 @@ def check_c01f(prog, rep, R="C01.f"):
                     src.add(str(x))
             rep.check(src <= {"built", "none(filled by the whole-copy fallback)"} and "built" in src, R, "set_content-source:" + short(name), "set_content in %s receives %s" % (short(name), sorted(src)), where=c.where(),
                       instance={"builder": short(name), "set_content_from": sorted(src)})
+
+
+ITEMWISE_COMPARERS = ("all_equal", "all_equal_value", "dedup", "dedup_by", "dedup_by_key", "eq", "ne", "cmp", "partial_cmp", "lt", "le", "gt", "ge", "max", "min",
+                      "is_sorted", "all_unique", "duplicates", "unique", "tuple_windows", "position_max", "position_min")
+
+
+def characters_compared_as_characters(prog, rep, R, prefixes=("pasfmt_core::rules::comment_contents::",)):
+    """C02.j — the normalisers decide on *characters*: a separator line is a run of one repeated character, a comment already
+    spaced is one whose first character is a blank.  Looking at the UTF-8 bytes instead gives the same answer only for tests of a
+    byte against an ASCII constant / ASCII class (a byte < 0x80 never occurs inside a multi-byte sequence), lengths, and
+    whole-slice equality.  So, in these bodies: (1) every comparison of a single byte (MIR binop on u8, or PartialEq/Ord on
+    u8 / &u8) has an ASCII constant on one side; (2) library calls that compare the items of an iterator with each other
+    (all_equal, dedup, eq, max, ...) run over chars, never over bytes."""
+    n = 0
+    bad = []
+
+    def place_ty(b, pl):
+        ty = b.local_ty(pl["l"]) or ""
+        for pe in pl["p"]:
+            if pe["k"] == "deref":
+                ty = ty[5:] if ty.startswith("&mut ") else ty.lstrip("&")
+            elif pe["k"] == "field" and pe.get("ty"):
+                ty = pe["ty"]
+            elif pe["k"] in ("index", "constindex"):
+                ty = ty.strip("[]").split(";")[0]
+            else:
+                return ty
+        return ty.strip()
+
+    def op_ty(b, o):
+        return "const" if o["k"] == "const" else place_ty(b, o["place"])
+
+    def ascii_const(b, o):
+        if o["k"] == "const":
+            return isinstance(o.get("int"), int) and 0 <= o["int"] < 0x80
+        vs = {x for x in Origins(b).of_operand(o)}
+        return bool(vs) and all(x[0] == "const" and x[1] == "int" and 0 <= x[2] < 0x80 for x in vs)
+    for b in prog.bodies.values():
+        if not b.npath.startswith(prefixes):
+            continue
+        for bb, i, s in b.stmts():
+            if s["k"] == "assign" and s["rv"]["k"] == "binop" and s["rv"]["op"] in ("Eq", "Ne", "Lt", "Le", "Gt", "Ge"):
+                a, c = s["rv"]["a"], s["rv"]["b"]
+                tys = [op_ty(b, a), op_ty(b, c)]
+                if "u8" not in tys:
+                    continue
+                n += 1
+                if not (ascii_const(b, a) or ascii_const(b, c)):
+                    bad.append("%s:%s: a byte of the text is compared with %s" % (short(b.npath), s.get("line"), "another byte" if tys.count("u8") == 2 else "a non-ASCII constant"))
+        for c in b.calls():
+            nm = (c.callee or "").split("::")[-1]
+            cargs = [str(x) for x in c.t.get("callee_args", [])]
+            if (c.callee or "").startswith(("core::cmp::PartialEq::", "core::cmp::PartialOrd::", "core::cmp::Ord::")) and cargs and all(x.replace("&", "").strip() == "u8" for x in cargs[:2]):
+                n += 1
+                if not any(ascii_const(b, a) for a in c.args):
+                    bad.append("%s:%s: bytes of the text are compared with each other (%s)" % (short(b.npath), c.line, nm))
+            elif nm in ITEMWISE_COMPARERS and (c.callee or "").startswith(("core::iter::", "itertools::")):
+                n += 1
+                if cargs and ("Bytes" in cargs[0] or "u8" in cargs[0]):
+                    bad.append("%s:%s: %s over the bytes of the text compares encoded bytes, not characters" % (short(b.npath), c.line, nm))
+    rep.check(not bad, R, "characters-compared-as-characters", "a normaliser compares UTF-8 bytes of the token's text with each other: the answer then depends on how a character is encoded "
+              "(`//══════════` is a run of one character but not of one byte, so it stops being a separator line and gets a space inserted): %s" % bad[:3],
+              instance={"byte_or_item_comparisons": n, "violating": bad[:5]})
+    rep.floor(R, "byte / item comparisons in the text normalisers", n, 19)
 
 
 def documented_normalisations(prog, rep, R):
